@@ -180,15 +180,14 @@ private theorem walk_init (O : Oracles) (cgi : Bool) (hp sp : Option (List Nat))
     exact walk_iff _ r hs
 
 /-- **C52, NO_PROXY part.** For every NO_PROXY string, every behaviour of the (unmodelled) parsers
-and every request whose canonical address splits: `useProxy` answers "no proxy" exactly when the
-documented bypass condition holds. -/
+and every request: `useProxy` answers "no proxy" exactly when the documented bypass condition
+holds. -/
 theorem useProxy_false_iff_bypass (O : Oracles) (cgi : Bool) (hp sp : Option (List Nat)) (np : List Nat)
-    (r : Req) (hok : r.addrOk = true) :
+    (r : Req) :
     useProxy (init O cgi hp sp np) r = false ↔ Bypass O np r := by
   have hw := walk_init O cgi hp sp np r
   unfold useProxy
   unfold Bypass
-  simp only [hok, Bool.not_true, Bool.false_eq_true, if_false]
   by_cases hl : r.host = localhost
   · simp [hl]
   · simp only [hl, if_false, false_or]
@@ -200,8 +199,7 @@ theorem useProxy_false_iff_bypass (O : Oracles) (cgi : Bool) (hp sp : Option (Li
     | none => cases A <;> cases D <;> simp
     | some ip => cases hlb : isLoopback ip <;> cases A <;> cases D <;> simp [hlb]
 
-/-- The literal statement of C52's NO_PROXY clause: for ALL requests (also those whose canonical
-address cannot be split again). -/
+/-- The literal statement of C52's NO_PROXY clause: for ALL configurations and ALL requests. -/
 def BypassExactlyWhenDocumented : Prop :=
   ∀ (O : Oracles) (cgi : Bool) (hp sp : Option (List Nat)) (np : List Nat) (r : Req),
     useProxy (init O cgi hp sp np) r = false ↔ Bypass O np r
@@ -209,25 +207,11 @@ def BypassExactlyWhenDocumented : Prop :=
 def noOracles : Oracles :=
   { parseCIDR := fun _ => none, splitHostPort := fun _ => none, parseIP := fun _ => none, idna := fun _ => none }
 
-/-- The code as it is does NOT satisfy the literal statement: a host such as `a]b` (accepted by
-`url.Parse`) makes `net.SplitHostPort(canonicalAddr)` fail and `useProxy` answers "no proxy" with
-an empty NO_PROXY.  (Known finding `unsplittable-addr-bypass`.) -/
-theorem full_false : ¬ BypassExactlyWhenDocumented := by
-  intro h
-  have := (h noOracles false none none []
-    { scheme := schemeHTTP, addrOk := false, host := [], port := [], ip := none }).1 (by decide)
-  revert this
-  simp [Bypass, entries, splitComma, pieceStep, trimSpace, trimLeft, trimRight, toLower, stepEntry, localhost]
-
-/-- The statement holds on the whole region `addrOk = true` (everything but the finding). -/
-theorem holds_partial :
-    ∀ (O : Oracles) (cgi : Bool) (hp sp : Option (List Nat)) (np : List Nat) (r : Req),
-      r.addrOk = true → (useProxy (init O cgi hp sp np) r = false ↔ Bypass O np r) :=
-  fun O cgi hp sp np r hok => useProxy_false_iff_bypass O cgi hp sp np r hok
-
-/-- In the excluded region the code never proxies. -/
-theorem unsplittable_never_proxied (c : Cfg) (r : Req) (h : r.addrOk = false) : useProxy c r = false := by
-  simp [useProxy, h]
+/-- **The statement holds in full** (after the repair of `unsplittable-addr-bypass`: host and port
+reach `useProxyHostPort` without a `JoinHostPort`/`SplitHostPort` round trip, so every request has
+a host and nothing is exempted silently). -/
+theorem holds : BypassExactlyWhenDocumented :=
+  fun O cgi hp sp np r => useProxy_false_iff_bypass O cgi hp sp np r
 
 /-! ### scheme selection and CGI refusal -/
 
@@ -257,21 +241,21 @@ private theorem http_ne_https : schemeHTTP ≠ schemeHTTPS := by decide
 
 /-- https requests: HTTPS_PROXY, unless the bypass condition holds. -/
 theorem https_selection (O : Oracles) (cgi : Bool) (hp sp : Option (List Nat)) (np : List Nat) (r : Req)
-    (hs : r.scheme = schemeHTTPS) (hok : r.addrOk = true) (u : List Nat) (hu : sp = some u) :
+    (hs : r.scheme = schemeHTTPS) (u : List Nat) (hu : sp = some u) :
     (Bypass O np r → proxyForURL (init O cgi hp sp np) r = .noProxy) ∧
     (¬ Bypass O np r → proxyForURL (init O cgi hp sp np) r = .proxy u) := by
   subst hu
-  have hb := useProxy_false_iff_bypass O cgi hp (some u) np r hok
+  have hb := useProxy_false_iff_bypass O cgi hp (some u) np r
   rw [proxyForURL_init]
   cases hup : useProxy (init O cgi hp (some u) np) r <;> simp_all
 
 /-- http requests outside CGI: HTTP_PROXY, unless the bypass condition holds. -/
 theorem http_selection (O : Oracles) (hp sp : Option (List Nat)) (np : List Nat) (r : Req)
-    (hs : r.scheme = schemeHTTP) (hok : r.addrOk = true) (u : List Nat) (hu : hp = some u) :
+    (hs : r.scheme = schemeHTTP) (u : List Nat) (hu : hp = some u) :
     (Bypass O np r → proxyForURL (init O false hp sp np) r = .noProxy) ∧
     (¬ Bypass O np r → proxyForURL (init O false hp sp np) r = .proxy u) := by
   subst hu
-  have hb := useProxy_false_iff_bypass O false (some u) sp np r hok
+  have hb := useProxy_false_iff_bypass O false (some u) sp np r
   rw [proxyForURL_init]
   cases hup : useProxy (init O false (some u) sp np) r <;> simp_all [http_ne_https]
 
@@ -434,7 +418,7 @@ private def xfooCom : List Nat := [120, 102, 111, 111, 46, 99, 111, 109]      --
 private def p80 : List Nat := [56, 48]
 private def proxyURL : List Nat := [112]
 private def mkReq (host : List Nat) : Req :=
-  { scheme := schemeHTTP, addrOk := true, host := host, port := p80, ip := none }
+  { scheme := schemeHTTP, host := host, port := p80, ip := none }
 
 /-- NO_PROXY=" FOO.com ,.foo.com": "foo.com" and "x.foo.com" bypass, "xfoo.com" is proxied. -/
 example : proxyForURL (init noOracles false (some proxyURL) none ([32, 70, 79, 79] ++ [46, 99, 111, 109, 32, 44, 46] ++ fooCom)) (mkReq fooCom) = .noProxy := by decide
@@ -443,6 +427,12 @@ example : proxyForURL (init noOracles false (some proxyURL) none ([32, 70, 79, 7
 /-- ".foo.com" alone: subdomains only. -/
 example : proxyForURL (init noOracles false (some proxyURL) none (46 :: fooCom)) (mkReq fooCom) = .proxy proxyURL := by decide
 example : proxyForURL (init noOracles false (some proxyURL) none (46 :: fooCom)) (mkReq xFooCom) = .noProxy := by decide
+/-- The old witness of `unsplittable-addr-bypass`, host `a]b`: with an empty NO_PROXY it is now
+proxied (before the repair: silently not), and it still honours `*`. -/
+example : proxyForURL (init noOracles false (some proxyURL) none []) (mkReq [97, 93, 98]) = .proxy proxyURL := by decide
+example : ¬ Bypass noOracles [] (mkReq [97, 93, 98]) := by
+  simp [Bypass, entries, splitComma, pieceStep, trimSpace, trimLeft, trimRight, toLower, stepEntry, localhost, mkReq]
+example : proxyForURL (init noOracles false (some proxyURL) none [42]) (mkReq [97, 93, 98]) = .noProxy := by decide
 /-- "x,*,y": everything bypasses; CGI refuses http. -/
 example : proxyForURL (init noOracles false (some proxyURL) none [120, 44, 42, 44, 121]) (mkReq fooCom) = .noProxy := by decide
 example : proxyForURL (init noOracles true (some proxyURL) none []) (mkReq fooCom) = .errCGI := by decide
@@ -450,11 +440,11 @@ example : proxyForURL (init noOracles true (some proxyURL) none []) (mkReq fooCo
 private def cidrOracles : Oracles :=
   { noOracles with parseCIDR := fun s => if s = [49] then some ([10, 0, 0, 0], 8, 32) else none }
 example : useProxy (init cidrOracles false none none [49])
-    { scheme := schemeHTTP, addrOk := true, host := [], port := p80, ip := some [10, 1, 2, 3] } = false := by decide
+    { scheme := schemeHTTP, host := [], port := p80, ip := some [10, 1, 2, 3] } = false := by decide
 example : useProxy (init cidrOracles false none none [49])
-    { scheme := schemeHTTP, addrOk := true, host := [], port := p80, ip := some [11, 1, 2, 3] } = true := by decide
+    { scheme := schemeHTTP, host := [], port := p80, ip := some [11, 1, 2, 3] } = true := by decide
 example : useProxy (init cidrOracles false none none [49])
-    { scheme := schemeHTTP, addrOk := true, host := [], port := p80,
+    { scheme := schemeHTTP, host := [], port := p80,
       ip := some [0, 0, 0, 0, 0, 0, 0, 0, 0, 0, 255, 255, 10, 1, 2, 3] } = false := by decide
 
 end NetVerif.Proofs.C52
